@@ -2,9 +2,9 @@ import beacon
 import verif
 
 MANIFEST = dict(
-    text="Coq theorems, for all list sizes and committee counts: compute_committee's slicing covers the index range exactly once, sizes are floor(n/count) or one more, each committee is the shuffled slice, and — unconditionally, C06's bijection transported to the Spec's own shuffle by Beacon/Proofs/ShuffleBridge.v — the committees of an epoch are a Permutation of the active set (every active validator in exactly one committee) for every hash, seed, round count and size. The executable Spec (get_beacon_committee, compute_proposer_index, get_next_sync_committee_indices, transliterated from the pyspec) is run, extracted to OCaml, against zrnt's from-scratch EpochsContext on every state recorded by the chain generator (all committees of prev/cur/next epoch, all proposers of the epoch, both sync committees); a difference is reported with the state as replay. Partial: equality of zrnt's committee/proposer/sync-committee computation with the Spec's is by correspondence (no separate Impl model of NewShufflingEpoch/ComputeProposers yet; the sampling loops terminate only statistically).",
+    text="Coq theorems, for all list sizes and committee counts: compute_committee's slicing covers the index range exactly once, sizes are floor(n/count) or one more, each committee is the shuffled slice, and — unconditionally, C06's bijection transported to the Spec's own shuffle by Beacon/Proofs/ShuffleBridge.v — the committees of an epoch are a Permutation of the active set (every active validator in exactly one committee) for every hash, seed, round count and size. The executable Spec (get_beacon_committee, compute_proposer_index, get_next_sync_committee_indices, transliterated from the pyspec) is run, extracted to OCaml, against zrnt's from-scratch EpochsContext on every state recorded by the chain generator (all committees of prev/cur/next epoch, all proposers of the epoch, both sync committees); a difference is reported with the state as replay. Implementation models of zrnt's own algorithms (Beacon/Impl/Shuffling.v: NewShufflingEpoch's whole-list unshuffle and slicing, ComputeProposers; Beacon/Impl/Epc.v: NewEpochsContext with GetSeed, loadCurrentStake, LoadSyncCommittees) are proved equal to the Spec (Refine/ShufflingRefine.v, ProposersRefine.v, C07Theorems.v, EpcRefine.v) and are themselves executed, extracted to OCaml, against the same Go dumps on every recorded state (`epc-impl-fresh`: Impl new_epochs_context vs Go's NewEpochsContext, all fields incl. the pubkey table), so the model the refinement theorems speak about is checked against the code on every run. Partial: the refinements hold under the C07 side conditions (uint64 ranges; the sampling loops terminate only statistically, zrnt caps proposer sampling at 32000 candidates).",
     note="Trusted: Coq kernel; extraction + OCaml driver; pyspec transliteration; BLS aggregate-pubkey oracle table; chain generator. No axioms.",
-    technique="Coq proof (slicing partition, Permutation) + extracted-Spec vs Go correspondence on generated chains",
+    technique="Coq proof (slicing partition, Permutation, Impl = Spec refinement) + extracted-Spec and extracted-Impl vs Go correspondence on generated chains",
     design="4/C07")
 
 
@@ -13,8 +13,13 @@ def _sync_field(r):
     return r["kind"] in ("slots", "trans") and not r["ok"] and "sync_committee" in r["detail"] and "differs in" in r["detail"]
 
 
+def _impl(r):
+    # the Impl model's new_epochs_context (Beacon/Impl/Epc.v, Impl/Shuffling.v) vs Go's NewEpochsContext dump
+    return r["detail"].startswith("epc-impl-fresh")
+
+
 def select(r):
-    return (r["kind"] == "epc" and r["detail"].startswith("epc-fresh")) or _sync_field(r)
+    return (r["kind"] == "epc" and (r["detail"].startswith("epc-fresh") or _impl(r))) or _sync_field(r)
 
 
 def judge(r):
@@ -23,6 +28,10 @@ def judge(r):
     d = r["detail"]
     if _sync_field(r):
         return 2
+    if _impl(r):
+        # Go differs from the Impl model: correspondence broken (the failing input, if Go is wrong, is the Spec line of the same record).
+        # effective balances / stake / pubkeys of the fresh context belong to C08
+        return 1 if any(k in d for k in ("_committee", "_active", "proposers", "sync_", "current_epoch", "impl-")) else None
     if any(k in d for k in ("_committee", "_active", "proposers", "sync_")):
         return 2
     return None  # effective balances / stake of the fresh context belong to C08
@@ -31,7 +40,7 @@ def judge(r):
 def make_check():
     return beacon.BeaconCheck(
         "C07", select, judge,
-        rule="every `epc` record of every generated chain (after each block, epoch boundary, upgrade, validator-adding deposit): zrnt's NewEpochsContext(state) vs the Spec evaluated on the same state bytes: active sets and all committees of 3 epochs, proposers of all slots, current/next sync-committee indices; plus every slots/trans record whose Go post-state stores a current/next sync committee other than the one the Spec computes at that period boundary or upgrade. distinct = (chain, record); all are non-trivial (>= 8 validators, >= 1 committee per slot)",
-        make_targets=["Properties/C07.vo", "Beacon/Run.vo"], trust=beacon.BEACON_TRUST,
-        model_files=["coq/Beacon/Spec/Helpers.v", "coq/Beacon/Run.v", "coq/Beacon/Proofs/CommitteeSlices.v", "coq/Beacon/Proofs/CommitteePartition.v", "coq/Beacon/Proofs/ShuffleBridge.v", "coq/Properties/C07.v"],
+        rule="every `epc` record of every generated chain (after each block, epoch boundary, upgrade, validator-adding deposit): zrnt's NewEpochsContext(state) vs the Spec evaluated on the same state bytes: active sets and all committees of 3 epochs, proposers of all slots, current/next sync-committee indices, and the same dump vs the extracted Impl model's new_epochs_context (epc-impl-fresh lines, code 1); plus every slots/trans record whose Go post-state stores a current/next sync committee other than the one the Spec computes at that period boundary or upgrade. distinct = (chain, record); all are non-trivial (>= 8 validators, >= 1 committee per slot)",
+        make_targets=["Properties/C07.vo", "Beacon/Run.vo", "Beacon/Refine/EpcRun.vo"], trust=beacon.BEACON_TRUST,
+        model_files=["coq/Beacon/Spec/Helpers.v", "coq/Beacon/Run.v", "coq/Beacon/Proofs/CommitteeSlices.v", "coq/Beacon/Proofs/CommitteePartition.v", "coq/Beacon/Proofs/ShuffleBridge.v", "coq/Beacon/Impl/Shuffling.v", "coq/Beacon/Impl/Epc.v", "coq/Beacon/Refine/EpcRun.v", "coq/Properties/C07.v"],
         notes="conditional: compute_proposer_index / sync sampling use fuel 40000 candidates; a state on which the spec loop does not terminate within that is out of domain.")
